@@ -177,3 +177,37 @@ level("C12",
       "loop bodies (try/except modelled as alternative paths), recognition of list placement calls.",
       "exactly-once counting over enumerated paths of the placement loops; forwarding agreement of generate() overrides",
       "DESIGN.md §4 C12")
+
+level("C01",
+      "Static decision for all sample lists of the optionality and completeness clauses: monotone optionality through "
+      "every feasible path of the field-set merge, wrapping of missing names, hoisting of Optional union members, "
+      "fields dropped only by the all-null filter, one field per key, no class shadowed by a same-named one.",
+      "Decided: OPT-1, OPT-2, OPT-3, DROP-1, DUP-1. NOT decided: that every value inhabits the annotation chosen for "
+      "it (value-level: type detection, simplification, pseudo-type resolution). Trusted: path enumeration of "
+      "merge_field_sets with the symbolic optionality evaluator; equality axioms checked by EQ-1/NF-3.",
+      "path-sensitive abstract evaluation (optionality kinds) of the merge loop; must-follow structure of the missing-field loop",
+      "DESIGN.md §4 C01")
+level("C02",
+      "Static decision of where widening can be introduced: Optional only when justified by the merge table, Null only "
+      "for None, Unknown only for empty containers, candidate removals and str only as documented, no cross-call state "
+      "in type construction.",
+      "Decided: OPT-4, NULLDET-1, WIDEN-1, GLOB-1 (type construction). NOT decided: per-position tightness against the "
+      "sample multiset. Trusted: guard recognition by enclosing conditions.",
+      "who-may-introduce / who-may-remove classification of widening sites with guard conditions; effect analysis",
+      "DESIGN.md §4 C02")
+level("C07",
+      "Static decision of the order-insensitivity clauses visible in code: symmetric optionality and equality-only keeps "
+      "in the merge table, type-exact order-insensitive equality with cache invalidation, limit comparisons that count "
+      "one distinct set.",
+      "Decided: OPT-5, EQ-1, LIM-1..3. NOT decided: invariance of inferred types under permutation (follows values). "
+      "Trusted: as C01 and C10.",
+      "symmetry check on the abstract merge table; structural checks of __eq__/sorted/caches",
+      "DESIGN.md §4 C07")
+level("C08",
+      "Static decision of the structural normal-form clauses: singleton collapse tested on the constructed union, no "
+      "empty union, no nested Optional, double simplification pass in merge_models, cache invalidation, removal of "
+      "Unknown/Null from the final candidate list.",
+      "Decided: NF-1/2/3, NF-6, EQ-1, WIDEN-1 (NF-5), OPT-3. NOT decided: int/float and str absorption on concrete "
+      "types, idempotence on arbitrary types. Trusted: recognition of the collapse idiom directly after the construction.",
+      "construction-site typestate (every union construction followed by its collapse test), must-call ordering",
+      "DESIGN.md §4 C08")
